@@ -85,14 +85,18 @@ func (p *Params) CheckPoW(h Hash, bits uint32) bool {
 	return HashToBig(h).Cmp(t) <= 0
 }
 
-// BlockWork = 2^256 / (target+1)
+// BlockWork = 2^256 / (target+1), the expected number of hashes, kept with 64 fractional bits (the value is only ever
+// compared). Bitcoin Core keeps the integer part alone, which is exact enough for every target a real network allows
+// (>= 2^32 hashes per block) but not for the simulation's: at the regtest-like limit 0x207fffff a block is worth
+// 2.0000002 hashes and a block at a quarter of that target 8.0000038, so the integer parts (2 and 8) would call four
+// easy blocks and one hard block a tie that exists on no real network. Equal multisets of targets still tie exactly.
 func BlockWork(bits uint32) *big.Int {
 	t, neg, over := DecodeCompact(bits)
 	if neg || over || t.Sign() == 0 {
 		return new(big.Int)
 	}
 	d := new(big.Int).Add(t, big.NewInt(1))
-	return new(big.Int).Div(new(big.Int).Lsh(big.NewInt(1), 256), d)
+	return new(big.Int).Div(new(big.Int).Lsh(big.NewInt(1), 256+64), d)
 }
 
 type Coin struct {
